@@ -227,7 +227,7 @@ def check_signature(ctx, params, ret, rnd):
 
 # literal defaults / annotations whose text contains the characters the string form is cut at (commas, colons,
 # equal signs, brackets, both kinds of quotes); all survive str(signature) (repr) unchanged in value
-RICH_DEFAULTS = ('(1, 2)', "'x, y'", '"it\'s"', '[1, 2]', "{'k':1, 'j':2}", "'a=b'", "'c:d'", '\'say "hi", it\\\'s\'', "('(', ']')", "''", '()')
+RICH_DEFAULTS = ("'C:\\\\'", "'a\\\\b, c'", '(1, 2)', "'x, y'", '"it\'s"', '[1, 2]', "{'k':1, 'j':2}", "'a=b'", "'c:d'", '\'say "hi", it\\\'s\'', "('(', ']')", "''", '()')
 RICH_ANNOTATIONS = ("'x, y'", '(1, 2)', "'p=q'", '{1:2}', '"don\'t"', "'r:s'", '[1, [2, 3]]')
 RICH = set(RICH_DEFAULTS) | set(RICH_ANNOTATIONS)
 
